@@ -297,4 +297,52 @@ theorem modInv_reachable (c : Cfg) (ops : List QOp) : ModInv (ops.foldl (qstep c
     | lookup k name => exact modInv_lookup c s k name h
     | touch => exact modInv_checkLatest c s h
 
+/-! ## the next free index never moves back -/
+
+theorem next_mono_rmAssign (s : St) (d : ModDef) : s.db.nextIndex ≤ (s.rmAssign d).1.db.nextIndex := by
+  unfold St.rmAssign
+  by_cases hnum : d.next - d.first > 0
+  · simp only [hnum, if_true]; omega
+  · simp only [hnum, if_false]; exact Int.le_refl _
+
+theorem next_mono_requestModule (s : St) (d : ModDef) : s.db.nextIndex ≤ (s.requestModule d).db.nextIndex := by
+  have h1 := next_mono_rmAssign s d
+  have h2 : (s.requestModule d).db.nextIndex = (s.rmAssign d).1.db.nextIndex := by
+    unfold St.requestModule St.rmRequest St.rmHash
+    split <;> split <;> rfl
+  omega
+
+theorem next_mono_loadOne (c : Cfg) (s : St) (d : ModDef) : s.db.nextIndex ≤ (s.loadOne c d).db.nextIndex := by
+  unfold St.loadOne
+  split
+  · exact Int.le_refl _
+  · exact Int.le_refl _
+  · rename_i db' b heq
+    exact loadOutcome_next c s.db d db' b heq
+
+theorem next_mono_checkLatest (c : Cfg) (s : St) : s.db.nextIndex ≤ (s.checkLatest c).db.nextIndex := by
+  unfold St.checkLatest
+  split
+  · exact Int.le_refl _
+  · have h0 : s.db.nextIndex ≤ ({ s with requests := [] } : St).db.nextIndex := Int.le_refl _
+    generalize ({ s with requests := [] } : St) = s0 at h0
+    induction s.requests generalizing s0 with
+    | nil => exact h0
+    | cons d ds ih => exact ih _ (Int.le_trans h0 (next_mono_loadOne c s0 d))
+
+theorem next_mono_qstep (c : Cfg) (s : St) (op : QOp) : s.db.nextIndex ≤ (qstep c s op).db.nextIndex := by
+  cases op with
+  | request d => exact next_mono_requestModule s d
+  | touch => exact next_mono_checkLatest c s
+  | lookup k name =>
+    have h1 := next_mono_checkLatest c s
+    show s.db.nextIndex ≤ (s.lookup c k name).1.db.nextIndex
+    unfold St.lookup
+    simp only
+    split
+    · have : ((s.checkLatest c).rebuild c k).db.nextIndex = (s.checkLatest c).db.nextIndex := by
+        unfold St.rebuild St.setCache; cases k <;> rfl
+      simp only [this]; exact h1
+    · exact h1
+
 end IgVerif
